@@ -90,13 +90,45 @@ Definition lookup_tab (T : table) (c : name) : list fdecl :=
 Definition class_fields (T : table) (d : decl) : list fdecl :=
   fold_left upd (d_fields d)
     (fold_left (fun acc b => fold_left upd (lookup_tab T b) acc) (rev (d_bases d)) []).
+(* ---- the ORDER of the fields: dataclasses walks the whole reversed MRO (C3 linearisation), not only the direct bases:
+   for b in cls.__mro__[-1:0:-1]: fields.update(b.__dataclass_fields__).  Which fields a class has is [class_fields];
+   the order below matters only where the code depends on the insertion order of parallel edges (derived views). ---- *)
+Definition heads_ok (h : name) (ls : list (list name)) : bool :=
+  forallb (fun l => match l with [] => true | _ :: tl => negb (mem h tl) end) ls.
+Fixpoint find_head (cands ls : list (list name)) : option name :=
+  match cands with
+  | [] => None
+  | [] :: r => find_head r ls
+  | (h :: _) :: r => if heads_ok h ls then Some h else find_head r ls
+  end.
+Fixpoint c3_merge (fuel : nat) (ls : list (list name)) : list name :=
+  match fuel with
+  | O => []
+  | S k => match find_head ls ls with
+           | None => []
+           | Some h => h :: c3_merge k (map (filter (fun x => negb (Pos.eqb x h))) ls)
+           end
+  end.
+Fixpoint mro_of (fuel : nat) (p : prog) (c : name) : list name :=
+  match fuel with
+  | O => [c]
+  | S k => c :: c3_merge (length p * S (length p)) (map (mro_of k p) (bases_of p c) ++ [bases_of p c])
+  end.
+Definition py_order (p : prog) (T : table) (d : decl) : list name :=
+  flat_map (fun b => map f_name (lookup_tab T b)) (rev (tl (mro_of (length p) p (d_name d)))) ++ map f_name (d_fields d).
+(* the same fields, listed by first occurrence of their names in [ord] *)
+Definition reorder (ord : list name) (l : list fdecl) : list fdecl :=
+  flat_map (fun n => filter (fun f => Pos.eqb (f_name f) n) l) (dedup ord [])
+  ++ filter (fun f => negb (mem (f_name f) ord)) l.
+
 (* declarations are processed in program order; the table of a class is fixed when the class is created *)
-Fixpoint tabs (T : table) (p : list decl) : table :=
+Fixpoint tabs_in (p0 : prog) (T : table) (p : list decl) : table :=
   match p with
   | [] => T
-  | d :: p' => tabs ((d_name d, class_fields T d) :: T) p'
+  | d :: p' => tabs_in p0 ((d_name d, reorder (py_order p0 T d) (class_fields T d)) :: T) p'
   end.
-Definition tab (p : prog) : table := tabs [] p.
+Definition tabs (T : table) (p : list decl) : table := tabs_in p T p.
+Definition tab (p : prog) : table := tabs_in p [] p.
 
 (* ---- ClassDiagram.__post_init__ ---- *)
 (* __post_init__ wraps every list element in a new WrappedClass, so add_node's "already present" exit is never
